@@ -14,7 +14,7 @@ def describe(tier):
                 'AES-CBC(k, iv=c[:16], pkcs7(m)) computed directly with `cryptography`, decryption under two other keys raises or differs, '
                 'a one-bit change of the key is such another key; declared-length variants: message_length/cipher_length in '
                 '{unlimited, exact, off by one / off by one block} must accept/raise ValueError accordingly; every wrong key length 0..40 must '
-                'raise ValueError in Encrypt and Decrypt; every key_length 0..40 outside {16,24,32} and every cipher_length that is not a '
+                'raise ValueError in Encrypt and Decrypt; every key_length 0..130 (and 192, 256, 512, 1024) outside {16,24,32} and every cipher_length that is not a '
                 'multiple of 16 must be refused by the constructor; 600 (5000) encryptions of one message by ONE cipher object have pairwise distinct IVs and ciphertexts. non-trivial = message length > 0.'
                 % (hi, '' if tier == 'quick' else ' and 1000, 4095, 4096, 4097, 65535, 65536'),
         'bounds': 'message lengths 0..%d exhaustive' % hi,
@@ -168,7 +168,7 @@ def run_contracts(r, seed, kl):
 
 def run_ctor(r, seed):
     A = impl()
-    for kl in range(0, 41):
+    for kl in list(range(0, 131)) + [192, 256, 512, 1024]:
         case = {'ctor_key_length': kl}
         r['evaluations'] += 1
         r['states'] += 1
